@@ -5,7 +5,7 @@
    operations (arbitrary inputs, including verdicts, drawn challenges, payment outcomes) from the
    empty store for the reward theorem. *)
 From Coq Require Import ZArith NArith List Bool.
-From JK Require Import Base.Dec Base.AList Model.StorageFiles Proofs.StorageFilesProofs Proofs.StorageFilesFrame Proofs.StorageFilesRecency Proofs.RewardBridge.
+From JK Require Import Base.Dec Base.AList Model.StorageFiles Proofs.StorageFilesProofs Proofs.StorageFilesFrame Proofs.StorageFilesRecency Proofs.StorageFilesJudged Proofs.RewardBridge.
 Import ListNotations.
 Open Scope Z_scope.
 
@@ -101,6 +101,22 @@ Theorem C01_no_reward_without_valid_proof :
     exists ops1 o ops2, ops = ops1 ++ o :: ops2 /\ accepted_valid (run init ops1) o (p, fk).
 Proof. exact credited_only_after_valid_proof. Qed.
 Print Assumptions C01_no_reward_without_valid_proof.
+
+(* "stays credited … only by submitting a proof": for EVERY state, height and check window, whoever a reward block
+   credits for a file is credited for a key that file lists as the block finds it, and either the file is still in
+   its first proof interval, or the record stored under that key when the block began names the credited prover and
+   carries a LastProven no older than the start of the file's last closed proof interval; by
+   C01_every_last_proven_is_the_height_of_a_valid_proof_or_quorum that LastProven is the height of an accepted
+   verifying proof by that prover on that file (or of a completed quorum) *)
+Theorem C01_credited_only_with_a_proof_in_the_judged_interval :
+  forall s h cw s' cr p fk,
+    reward_block s h cw = Some (s', cr) -> In (p, fk) cr ->
+    exists k0 f key, In (k0, f) (files1 s) /\ fk1 f = fk /\ In key (f_proofs f) /\
+      (f_start f + f_interval f >= h \/
+       exists r, get_proof s key = Some r /\ p_prover r = p /\
+                 p_last r >= f_start f + ((h - f_start f) - Z.rem (h - f_start f) (f_interval f)) - f_interval f).
+Proof. exact credited_only_when_judged_proven. Qed.
+Print Assumptions C01_credited_only_with_a_proof_in_the_judged_interval.
 
 (* non-vacuity: a stranger's rejected submission (wrong chunk, then a proof that does not verify)
    leaves him unlisted and uncredited; the honest prover is credited in the first reward block
